@@ -380,8 +380,10 @@ class Qcow2VmdkStreamSuite(Suite):
             tries += 1
             if self.fmt == "qcow2":
                 # (the first image has a compressed cluster whose stream needs one sector more than a cluster)
-                c = c01.gen_case(rng, "quick") if out else \
-                    c01.gen_case_where(rng, "quick", lambda k: c01.needs_wide_csize(k) and 0 < k["size"] <= 3 * (1 << 20))
+                # (... and the second one an external data file whose offset 0 holds a cluster)
+                c = c01.gen_case(rng, "quick") if len(out) >= 2 else \
+                    c01.gen_case_where(rng, "quick", lambda k: (c01.needs_wide_csize(k) if not out else c01.has_datafile_cluster0(k))
+                                       and 0 < k["size"] <= 3 * (1 << 20), tries=20000)
                 size = c["size"]
             else:
                 c = c02.gen_case(rng, "quick")
@@ -399,8 +401,10 @@ class Qcow2VmdkStreamSuite(Suite):
                 continue
             c = copy.deepcopy(c)
             c.pop("reqs", None)
-            out.append({"fmt": self.fmt, "img": c, "size": size, "bufsize": self.bufsize,
-                        "ops": gen_ops(rng, size, self.bufsize, rng.randint(3, 25))})
+            ops = gen_ops(rng, size, self.bufsize, rng.randint(3, 25))
+            if len(out) < 2:
+                ops += [["seek", 0, 0], ["read", -1]]          # the directed images are also read from start to end in one go
+            out.append({"fmt": self.fmt, "img": c, "size": size, "bufsize": self.bufsize, "ops": ops})
         return out
 
     def _open(self, case):
